@@ -96,6 +96,18 @@ fn gen_data<F: FElem>(prod: &str, rng: &mut Rng, wide: bool) -> Data<F> {
     let (me, mr) = if F::TAG == "g" { (8, 30.0) } else { (if wide { 40 } else { 20 }, 1.0e3) };
     let n = rng.range(2, 60) as usize;
     let cast = |v: Vec<f64>| -> Vec<F> { v.iter().map(|x| F::from64(*x)).collect() };
+    // every so often: zero spread (constant sample, constant differences)
+    if rng.below(12) == 0 && (prod == "arith" || prod == "paired") {
+        let c = (rng.range(-40, 40) as f64) * 0.25;
+        return match prod {
+            "arith" => Data::One(cast(vec![c; n])),
+            _ => {
+                let xs = sample_f64(rng, n, me, mr);
+                let ys: Vec<f64> = xs.iter().map(|x| x - c).collect();
+                Data::Two(cast(xs.iter().map(|x| (*x * 4.0).round() / 4.0).collect()), cast(ys.iter().zip(xs.iter()).map(|(_, x)| (*x * 4.0).round() / 4.0 - c).collect()))
+            }
+        };
+    }
     match prod {
         "arith" => Data::One(cast(sample_f64(rng, n, me, mr))),
         "geo" | "harm" => Data::One(cast(sample_pos_f64(rng, n, me / 2))),
